@@ -72,13 +72,15 @@ RxTcp(b, one) ==
                 r == IF one THEN [out |-> <<>>, buf |-> Drop(b, 6 + len)] ELSE RxTcp(Drop(b, 6 + len), one)
             IN [out |-> (IF d.uid \in Units THEN <<d>> ELSE <<>>) \o r.out, buf |-> r.buf]
 
+MaxRtuMC == 24      \* the model's "no RTU frame is longer than this" (256 bytes in reality), scaled to the pool
 KnownFc(fc) == IF Dir = "req" THEN fc \in SupportedFc ELSE (fc >= 128 \/ fc \in SupportedFc \ {43})
 RECURSIVE RxRtu(_, _)
 RxRtu(b, one) ==
   IF Len(b) < 2 THEN [out |-> <<>>, buf |-> b]
   ELSE IF ~KnownFc(b[2]) THEN RxRtu(Tail(b), one)                      \* cannot start a frame: slide by one byte
   ELSE LET n == RtuLen(Dir, b) IN
-       IF n = 0 \/ Len(b) < n THEN [out |-> <<>>, buf |-> IF "ResetOnIncomplete" \in RDev THEN <<>> ELSE b]
+       IF n > MaxRtuMC THEN RxRtu(Tail(b), one)                        \* longer than any frame can be (256 in reality): not a frame start
+       ELSE IF n = 0 \/ Len(b) < n THEN [out |-> <<>>, buf |-> IF "ResetOnIncomplete" \in RDev THEN <<>> ELSE b]
        ELSE IF "NoChecksum" \in RDev \/ SubSeq(b, n - 1, n) = CrcWire(SubSeq(b, 1, n - 2))
             THEN LET d == Deliv(b[1], 0, 0, SubSeq(b, 2, n - 2))
                      r == IF one THEN [out |-> <<>>, buf |-> Drop(b, n)] ELSE RxRtu(Drop(b, n), one)
